@@ -11,22 +11,34 @@ type progGen struct {
 	minFC  int  // smallest constant used in facts and heads (1: constant 0 only ever appears as a literal of an expression)
 	r      *rand.Rand
 	arity  []int // arity per predicate id
+	poly   int   // predicate id used at TWO arities (arity, arity+1) in this program, or -1: same name, different relations
 	consts int
 }
 
 func newProgGen(r *rand.Rand) *progGen {
-	g := &progGen{r: r, consts: 2 + r.Intn(2)}
+	g := &progGen{r: r, consts: 2 + r.Intn(2), poly: -1}
 	np := 2 + r.Intn(3)
 	for p := 0; p < np; p++ {
 		g.arity = append(g.arity, []int{1, 2, 2, 1, 0, 3}[r.Intn(6)])
 	}
+	if r.Intn(3) == 0 {
+		g.poly = r.Intn(np)
+	}
 	return g
+}
+
+// ar is the arity of one OCCURRENCE of predicate p
+func (g *progGen) ar(p int) int {
+	if p == g.poly && g.r.Intn(2) == 0 {
+		return g.arity[p] + 1
+	}
+	return g.arity[p]
 }
 
 func (g *progGen) fact() []int {
 	p := g.r.Intn(len(g.arity))
 	a := []int{p}
-	for i := 0; i < g.arity[p]; i++ {
+	for i, n := 0, g.ar(p); i < n; i++ {
 		a = append(a, g.minFC+g.r.Intn(g.consts-g.minFC))
 	}
 	return a
@@ -35,7 +47,7 @@ func (g *progGen) fact() []int {
 func (g *progGen) atom(nvars int) []int {
 	p := g.r.Intn(len(g.arity))
 	a := []int{p}
-	for i := 0; i < g.arity[p]; i++ {
+	for i, n := 0, g.ar(p); i < n; i++ {
 		if g.r.Intn(4) == 0 {
 			a = append(a, g.r.Intn(g.consts))
 		} else {
@@ -97,7 +109,7 @@ func (g *progGen) rule(maxBody int, query bool) (ARule, bool) {
 	// (one query in three has an ordinary head: its instances may coincide with facts already present)
 	p := g.r.Intn(len(g.arity))
 	r.H = []int{p}
-	for i := 0; i < g.arity[p]; i++ {
+	for i, n := 0, g.ar(p); i < n; i++ {
 		if len(vs) > 0 && g.r.Intn(5) != 0 {
 			r.H = append(r.H, vs[g.r.Intn(len(vs))])
 		} else {
